@@ -306,8 +306,11 @@ def annotate(lang: Lang, w, venv=None):
         pts = params_of(pt) if pt is not None else []
         for i, p in enumerate(x["ps"]):
             env2[p] = pts[i] if i < len(pts) else None
-        annotate(lang, x["b"], env2)
+        bt = annotate(lang, x["b"], env2)
         w["fn"] = True if pt is None else is_fun(pt)
+        if pt is not None and (len(pts) < len(x["ps"]) or
+                (bt is not None and bt != residual(pt, len(x["ps"])))):
+            w["illtyped"] = True
     elif x["k"] == "var":
         # a parameter handed on as an argument stands for its internal node, i.e. it is data,
         # whatever its type (graph.py:351 sees a TypeVariable, never a Function operation)
@@ -315,6 +318,10 @@ def annotate(lang: Lang, w, venv=None):
     else:
         xt = annotate(lang, x, venv)
         w["fn"] = is_fun(pt) if pt is not None else (is_fun(xt) if xt is not None else w["fn_impl"])
+        if pt is not None and xt is not None and pt != xt:
+            # the argument does not have the declared parameter type: the expression was
+            # damaged by expansion (destructive beta-reduction, property C15), not C08's matter
+            w["illtyped"] = True
     return ft[2] if (ft is not None and ft != A) else None
 
 
@@ -764,15 +771,16 @@ class Case:
 
 
 def run_impl(case: Case) -> bool:
-    """Build the expression with the real library and run add_expr.  False if the
-    expression itself cannot be built (not a C08 matter)."""
+    """Build the expression with the real library and run add_expr.  Returns None, or the
+    reason why the case is not used (the expression cannot be built / is too large / is
+    ill-typed after expansion: none of them a C08 matter)."""
     import transforge.expr as E
     lang = case.lang
     srcs = [E.Source(lang.Aop()) for _ in range(case.nsrc)]
     try:
         e = lang.build_term(case.term, {}, srcs).primitive()
     except Exception:
-        return False
+        return "not_buildable"
     ids, keep = {}, []
     w = walk(lang, e, ids, keep)
     annotate(lang, w)
@@ -781,7 +789,9 @@ def run_impl(case: Case) -> bool:
     acc = Counter()
     stats(w, acc)
     if acc["nodes"] > MAX_NODES:
-        return False
+        return "too_large"
+    if ill_typed(w):
+        return "ill_typed_after_expansion_C15"
     case.text = wexpr_text(w)
     case.dom = in_domain(w)
     case.impl, case.impl_error = None, None
@@ -791,7 +801,16 @@ def run_impl(case: Case) -> bool:
         case.impl_error = "AssertionError"
     except Exception as ex:        # noqa: BLE001 - any other exception is itself an observation
         case.impl_error = type(ex).__name__
-    return True
+    return None
+
+
+def ill_typed(w) -> bool:
+    k = w["k"]
+    if k == "app":
+        return bool(w.get("illtyped")) or ill_typed(w["f"]) or ill_typed(w["x"])
+    if k == "abs":
+        return ill_typed(w["b"])
+    return False
 
 
 def fn_mismatch(w) -> bool:
@@ -894,10 +913,11 @@ def build_cases(lang: Lang, items, out: list, skipped: Counter):
     lang.build()
     for name, term, nsrc in items:
         c = Case(lang, term, nsrc, name)
-        if run_impl(c):
+        why = run_impl(c)
+        if why is None:
             out.append(c)
         else:
-            skipped["not_buildable_or_too_large"] += 1
+            skipped[why] += 1
 
 
 def main(tier: str, seed: int, replay: str | None = None) -> int:
@@ -989,8 +1009,9 @@ def do_replay(rep: C.Report, path: str) -> int:
     lang = Lang.from_json(d["language"])
     case = Case(lang, term_from_json(d["term"]), d.get("nsrc", 2), d.get("name", "replay"))
     lang.build()
-    if not run_impl(case):
-        print(f"replay: expression cannot be built: {d.get('term_text')}")
+    why = run_impl(case)
+    if why is not None:
+        print(f"replay: case not usable ({why}): {d.get('term_text')}")
         return 2
     print(f"replay: {case.text}   in_domain={case.dom}")
     if not case.dom:
